@@ -122,6 +122,15 @@ CHECKS = {
  "C38": ("exploration", "stress workload with call tracker + state-based no-progress detector (two goroutine dumps + completed-call counter); delay injection; race detector",
          "2-4 compactors, 16 KiB memtables, L0 stall at 2-3 tables; 6 committers (Commit/CommitWith), 3 readers/iterators, a WriteBatch flusher and a maintenance goroutine (RunValueLogGC, DropPrefix, DropAll, Flatten, Subscribe+cancel) run with delays at flush/compaction/drop points, then Close is called while committers keep committing; a call older than 45 s starts the analysis: unchanged blocked badger stacks and no completed call over 8 s = violation with the dump as witness, otherwise inconclusive; a panic inside badger raised by a public call is a violation.",
          "Liveness restated as bounded progress; readers are excluded while DropAll runs (documented precondition of DropAll); StreamWriter is exercised in C26.", "4/C38"),
+ "C08": ("fault_enumeration", "crash injection: SIGKILL of a workload child at hook events (persistence events + schedule points) and strace-injected SIGKILL on syscall entry; side log of issue/ack/commit-ts; verifier child re-opens; commit-prefix/atomicity oracle + structure validator",
+         "Per configuration (deletes / GC loop / SyncWrites; plain, AES, compressed) a counting run records the hook-event sequence; children are killed at the first, last and random occurrences of every event class (file create/sync/truncate/rename/unlink/dir sync/MANIFEST append, commit, write, flush, compaction and GC phase points) and at uniformly random events, plus strace kills on entry to the N-th unlinkat/ftruncate/renameat/msync (multi-step file operations inside ristretto); after each kill a verifier child opens the directory twice: Open succeeds, every acknowledged commit is in the recovered set S, no logged commit timestamp below max(S) is missing, the state equals S applied in timestamp order (token, length, version), WriteBatch entries form a prefix and are complete when acknowledged, structure validator, new commit above every stored version.",
+         "Page cache survives (process kill). Event numbering varies between runs of the concurrent workload: evidence counts the classes actually hit. Stratified sample of events in the quick tier, several hundred per configuration in the thorough tier, not every event of every trace.", "4/C08"),
+ "C09": ("fault_enumeration", "fault injection on crash images: independent record parser + tail cutter (truncate / zero-fill) on the newest WAL, value log and MANIFEST; verifier child re-opens; exact recovered-set oracle",
+         "Crash images of the C08 workload (killed without Close; killed right after a MANIFEST append; plain and AES); for every header and checksum byte, the edges and sampled interior offsets of keys and values of the last transactions of the newest WAL, the last records of the newest value log file and every byte of the last MANIFEST record, a truncated and a zero-filled copy is opened: Open succeeds; WAL: recovered set = undamaged set minus exactly the transactions whose end marker is not wholly before the cut, state = that set applied in order; value log: no read returns other bytes than the written value without an error (an empty value with nil error is accepted only for values whose record is damaged: badger's deliberate behaviour); MANIFEST: state unchanged.",
+         "One file damaged at a time, everything before the cut intact; interior offsets of large values sampled (all offsets of the last record in the thorough tier); known finding: MANIFEST zero-filled tail.", "4/C09"),
+ "C10": ("fault_enumeration", "power-loss simulation: durable-image recorder fed by badger's persistence hook events (file bytes as of last sync, directory entries as of last directory sync), images frozen under the acknowledgement-log lock, verifier child opens each image; commit-prefix oracle",
+         "SyncWrites workloads (plain, deletes, AES+GC); images frozen at the first/last/random occurrence of every hook-event class, at uniformly random events and after Close; each image must open, contain every commit acknowledged before the freeze as a commit-order prefix, equal that prefix applied in order, pass the structure validator and accept a new commit above every stored version.",
+         "Power loss is simulated from hook events (minimal image: only explicitly synced data); bytes written after a file's last sync but before the hook ran may be credited; files the hooks do not report (LOCK, DISCARD) are copied as they are.", "4/C10"),
 }
 
 def hooks_commits():
